@@ -207,6 +207,9 @@ def report_failures(ctx, prop, fails, max_report=4):
             continue
         # drop configuration flags the failure does not need
         cfg0 = {"track": False, "reuse": False}
+        if hist[k].get("op") == "unsat_core":
+            # an untracked solver has no core at all: dropping the flag would turn the failure into another one
+            cfg0 = dict(cfg0, track=cfg.get("track", False))
         if cfg != cfg0 and all(any(kk == kind for _, kk, _ in L.run_history(uni, cls, cfg0, hist)[0]) for _ in range(2)):
             cfg = cfg0
         sh = L.shrink(uni, cls, cfg, hist, kind)
